@@ -427,7 +427,7 @@ var c12TomlStrings = []string{"", "x", "a.b", "1", "true", "1979-05-27", "07:32:
 	"0x10", "'", "''", "'''", "\"", "\"\"", "\"\"\"", "\"\"x", "\\", "a\\nb", "line1\nline2", "\nx", "x\n", "\n", "\t", "\r", "a\rb", "\x00", "\x1f", "\x7f",
 	"é", "日本語", "😀", "\u00a0", "\ufeff", " ", " lead", "trail ", "#c", "a=b", "[x]", "{x}", "a,b", "\\u0041", "\"\"\"\n"}
 
-var c12TomlInts = []string{"0", "1", "-1", "42", "-7", "9223372036854775807", "-9223372036854775807", "1000000", "255"}
+var c12TomlInts = []string{"0", "1", "-1", "42", "-7", "9223372036854775807", "-9223372036854775807", "-9223372036854775808", "1000000", "255"}
 var c12TomlFloats = []string{"0.5", "-1.25", "3.0", "1e+30", "2.5e-07", "0.1", "-0.0", "123456.789", "1.7976931348623157e+308", "5e-324"}
 
 func c12GenAtom(r *Rng) *c12Atom {
@@ -845,8 +845,8 @@ func c12Corpus() []c12Doc {
 		{[]c12Ev{K(arr(inl()), "a"), T("a", "b")}, "static-array-extended"},
 		{[]c12Ev{T("a", "b"), A("a")}, "super-array-after-sub-table"},
 		{[]c12Ev{A("a", "b"), A("a")}, "super-array-after-sub-array"},
-		{[]c12Ev{A("a", "b"), A("a"), A("a")}, "toml-decoder-panic-stale-array-pointer"},
-		{[]c12Ev{A("a", "b"), K(one, "x"), A("a"), A("a"), K(two, "y")}, "toml-decoder-panic-stale-array-pointer"},
+		{[]c12Ev{A("a", "b"), A("a"), A("a")}, "super-array-after-sub-array-twice"},
+		{[]c12Ev{A("a", "b"), K(one, "x"), A("a"), A("a"), K(two, "y")}, "super-array-after-sub-array-twice"},
 		{[]c12Ev{A("p"), K(arr(one), "a"), A("p", "a")}, "array-element-key-reuse"},
 		{[]c12Ev{A("p"), K(arr(inl(c12KV{[]string{"x"}, one})), "a"), A("p", "a"), K(two, "y")}, "toml-lenient-array-element-key-reuse"},
 		{[]c12Ev{A("p"), K(inl(c12KV{[]string{"x"}, one}), "a"), T("p", "a"), K(two, "y")}, "toml-lenient-array-element-key-reuse"},
@@ -956,13 +956,9 @@ func c12RunDoc(c *Cfg, r *Rng, d c12Doc) {
 	c.Count("toml.doc.answer." + strings.SplitN(ans, " ", 3)[0])
 	c.Case("tomldecode "+line, len(d.evs) > 2)
 	if strings.HasPrefix(ans, "panic") {
+		// no panic of the decoder is a known finding (the stale *openTableArray of findArrayPrefix
+		// was repaired in /repo 8188ba4)
 		cls := "toml-decoder-panic"
-		if d.class == "toml-decoder-panic-stale-array-pointer" || d.class == "swap" || d.class == "table-as-array" {
-			// only reachable (as far as known) through the stale *openTableArray of findArrayPrefix
-			if strings.Contains(ans, "nil pointer") || strings.Contains(ans, "out of range") {
-				cls = "toml-decoder-panic-stale-array-pointer"
-			}
-		}
 		c.Direct(false, cls, "encoding/toml.Decoder panics: "+ans, map[string]any{"toml": text, "doc": line})
 		ans = "err panic"
 	}
